@@ -25,6 +25,7 @@ import (
 	"github.com/buildbarn/bb-storage/pkg/digest"
 	"github.com/buildbarn/bb-storage/pkg/verifshim/vsched"
 	"github.com/buildbarn/bb-storage/pkg/verifshim/vsemaphore"
+	"github.com/buildbarn/bb-storage/pkg/verifshim/vsync"
 	"google.golang.org/grpc/codes"
 	"google.golang.org/grpc/status"
 
@@ -111,14 +112,14 @@ func (f *faulty) FindMissing(ctx context.Context, ds digest.Set) (digest.Set, er
 }
 
 type world struct {
-	a, b    *replica
-	m       blobstore.BlobAccess
-	objs    []lstore.Obj
-	slicer  *lstore.FixedSlicer
-	gets    int // number of round-consuming calls so far
-	budget  int
-	seen    []codes.Code
-	local   bool
+	a, b   *replica
+	m      blobstore.BlobAccess
+	objs   []lstore.Obj
+	slicer *lstore.FixedSlicer
+	gets   int // number of round-consuming calls so far
+	budget int
+	seen   []codes.Code
+	local  bool
 }
 
 func newReplica(name string, local bool, w *world) *replica {
@@ -394,6 +395,94 @@ func body(local bool, repl string, depth, faults int) func() {
 	}
 }
 
+// concBody: two clients operate on the mirrored pair at the same time (this is where the deduplicating and
+// the concurrency-limiting replicators differ from the plain one: a caller may wait for, and rely on, another
+// caller's copy). X is held by exactly one replica, Z by the other or by both; one replica call may fail.
+func concBody(repl string) func() {
+	return func() {
+		sel := vsched.ChooseFree("choice", 2)
+		placement := []int{1 | 2<<2, 2 | 3<<2}[sel] // (X,Z): (A only, B only) (B only, both)
+		w := newWorld(false, repl, placement)
+		X, Z := w.objs[0], w.objs[1]
+		w.budget = 1
+		type res struct {
+			asked []lstore.Obj
+			miss  map[string]bool
+			err   error
+			get   bool
+			data  []byte
+		}
+		results := make([]*res, 2)
+		var wg vsync.WaitGroup
+		second := vsched.ChooseFree("choice", 3)
+		run := func(i int, kind int) {
+			defer wg.Done()
+			r := &res{}
+			results[i] = r
+			switch kind {
+			case 0, 1:
+				r.asked = []lstore.Obj{X}
+				if kind == 1 {
+					r.asked = []lstore.Obj{X, Z}
+				}
+				var ds []digest.Digest
+				for _, o := range r.asked {
+					ds = append(ds, o.Digest)
+				}
+				miss, err := w.m.FindMissing(context.Background(), sim.SetOf(ds...))
+				r.err = err
+				r.miss = map[string]bool{}
+				if err == nil {
+					for _, d := range miss.Items() {
+						r.miss[d.String()] = true
+					}
+				}
+				vsched.Obs("c%d FM -> %s", i, status.Code(err))
+			default:
+				r.get = true
+				r.data, r.err = w.m.Get(context.Background(), X.Digest).ToByteSlice(100)
+				vsched.Obs("c%d Get -> %s", i, status.Code(r.err))
+			}
+		}
+		wg.Add(2)
+		vsched.GoNamed("client0", false, func() { run(0, 0) })
+		vsched.GoNamed("client1", false, func() { run(1, second) })
+		wg.Wait()
+		w.budget = 0
+		for i, r := range results {
+			if r.err != nil {
+				c := status.Code(r.err)
+				if len(w.seen) == 0 {
+					failf("conc:error-without-cause-"+c.String(), "client %d failed with %v although no replica failure was injected", i, r.err)
+				}
+				if c != w.seen[0] {
+					failf("conc:replica-failure-masked-as-"+c.String(), "client %d failed with code %s; the injected replica failure had code %s (error: %v)", i, c, w.seen[0], r.err)
+				}
+				if !named(r.err) {
+					failf("conc:error-does-not-name-replica", "client %d: error %q does not name the replica", i, r.err.Error())
+				}
+				continue
+			}
+			if r.get {
+				if !bytes.Equal(r.data, X.Content) {
+					failf("get:wrong-bytes", "client %d: Get(X) = %q", i, r.data)
+				}
+				continue
+			}
+			for _, o := range r.asked {
+				// nothing is ever removed here, and every object is held by at least one replica throughout
+				if r.miss[o.Digest.String()] {
+					failf("findmissing:wrong-answer", "client %d: FindMissing reports %s missing although a replica holds it", i, o.Name)
+				}
+				if !(w.a.has(o.Digest) && w.b.has(o.Digest)) {
+					failf("findmissing:not-synchronised", "client %d: FindMissing succeeded, %s was held by exactly one replica, but after both clients returned A=%v B=%v", i, o.Name, w.a.has(o.Digest), w.b.has(o.Digest))
+				}
+			}
+			vsched.Mark()
+		}
+	}
+}
+
 func main() {
 	r := ev.Start("C11")
 	r.Rule("vsched: per (replica kind, replicator strategy): every initial placement x every operation sequence of the stated depth (free choices), and within each every schedule of the errgroup threads and every placement of injected replica failures within the deviation bound; non-trivial = executions with at least one successful read-repair, upload or existence check verified against both replicas")
@@ -410,6 +499,9 @@ func main() {
 			}
 			scs = append(scs, mc.Scenario{Name: fmt.Sprintf("%s/%s", kind, repl), Space: fmt.Sprintf("16 placements x all sequences of %d operations over 9 operations; replicas: %s; replicator: %s; fault budget 1, deviation bound %d", depth, kind, repl, ev.Pick(r, 1, 2)), Bound: ev.Pick(r, 1, 2), ShardDepth: 2, Body: body(local, repl, depth, 1), Budget: budget, MaxSteps: 60000})
 		}
+	}
+	for _, repl := range []string{"local", "dedup", "limit"} {
+		scs = append(scs, mc.Scenario{Name: "conc/" + repl, Space: fmt.Sprintf("two clients at once: FindMissing({X}) || {FindMissing({X}), FindMissing({X,Z}), Get(X)}; (X,Z) held by (A only, B only) or (B only, both); model replicas; replicator: %s; at most one injected replica failure; deviation bound %d", repl, ev.Pick(r, 2, 3)), Bound: ev.Pick(r, 2, 3), MaxFreeSwitches: ev.Pick(r, 2, 3), MaxExec: ev.Pick(r, int64(1500000), int64(8000000)), Body: concBody(repl), Budget: budget})
 	}
 	mc.Run(r, scs)
 	r.Finish()
